@@ -35,8 +35,13 @@ func h2fParams(fn string) (string, string) {
 	if h2fGeneric {
 		pp, aa = " (Bits : Int) (modulus : Int)"+pp, " Bits modulus"+aa
 	}
-	if fn == "Hash" {
+	switch fn {
+	case "Hash":
 		return pp + " (ExpandMsgXmd : Bytes → Bytes → Int → Bytes × Err)", aa + " ExpandMsgXmd"
+	case "SetString": // big.Int.SetString(s, 0): (value, ok)
+		return pp + " (bigSetString : GoString → Int × Bool)", aa + " bigSetString"
+	case "SetInt64":
+		return pp + " (setUint64F : Nat → F) (negF : F → F)", aa + " setUint64F negF"
 	}
 	return pp, aa
 }
@@ -254,7 +259,7 @@ func (f *impFn) checkBigScratch(get *ast.AssignStmt, x string) {
 		}
 		if id, ok := se.X.(*ast.Ident); ok && id.Name == x {
 			switch se.Sel.Name {
-			case "SetBytes", "Mod", "Neg", "Cmp", "Sign", "BitLen", "Bit", "IsUint64", "Uint64":
+			case "SetBytes", "Mod", "Neg", "Cmp", "Sign", "BitLen", "Bit", "IsUint64", "Uint64", "SetString":
 				allowed[id] = true
 			}
 		}
@@ -311,4 +316,33 @@ func writeH2FAll(names []string) {
 	}
 	b.WriteString("\nend GV.Gen.Imp.H2FAll\n")
 	writeFile("Imp/H2FAll.lean", b.String())
+}
+
+func writeSetAll(names []string) {
+	var b strings.Builder
+	b.WriteString("/- GENERATED by tools/goslp (imp_h2f.go) on every run. DO NOT EDIT.\n   SetBigInt / SetString / SetInt64 of the 23 field packages: every translation is the GENERIC text (Set_generic, the text of ecc/bn254/fr\n   with Bits and the modulus as parameters) at the package's own constants. -/\nimport GnarkVerif.Gen.Imp.Set_generic\n")
+	for _, n := range names {
+		b.WriteString("import GnarkVerif.Gen.Imp.Set_" + n + "\n")
+	}
+	b.WriteString("\nnamespace GV.Gen.Imp.SetAll\nopen GV.GoImp\n\n")
+	for _, n := range names {
+		for _, fn := range []string{"SetBigInt", "SetString", "SetInt64"} {
+			fmt.Fprintf(&b, "theorem %s_%s_same : @Set_%s.%s = @Set_generic.%s Set_%s.Bits Set_%s.modulus := rfl\n", n, fn, n, fn, fn, n, n)
+		}
+	}
+	b.WriteString("\n/-- one field package: name, the constants its functions read, its translated functions -/\nstructure Pkg where\n  name : String\n  bits : Int\n  modulus : Int\n  setBigInt : {F : Type} → [Inhabited F] → F → (Int → F) → F → Int → F\n  setString : {F : Type} → [Inhabited F] → F → (Int → F) → (GoString → Int × Bool) → F → GoString → F × Option F × Err\n  setInt64 : {F : Type} → [Inhabited F] → F → (Int → F) → (Nat → F) → (F → F) → F → Int → F\n\n")
+	b.WriteString("def allPkgs : List Pkg := [\n")
+	for i, n := range names {
+		sep := ","
+		if i == len(names)-1 {
+			sep = ""
+		}
+		fmt.Fprintf(&b, "  ⟨%q, Set_%s.Bits, Set_%s.modulus, @Set_%s.SetBigInt, @Set_%s.SetString, @Set_%s.SetInt64⟩%s\n", n, n, n, n, n, n, sep)
+	}
+	b.WriteString("]\n\n/-- every package's translation is the generic text at the package's constants -/\ntheorem allPkgs_same : ∀ P ∈ allPkgs, @P.setBigInt = @Set_generic.SetBigInt P.bits P.modulus ∧ @P.setString = @Set_generic.SetString P.bits P.modulus ∧\n    @P.setInt64 = @Set_generic.SetInt64 P.bits P.modulus := by\n  intro P hP\n  simp only [allPkgs, List.mem_cons, List.not_mem_nil, or_false] at hP\n  rcases hP with " + strings.TrimSuffix(strings.Repeat("rfl | ", len(names)), " | ") + "\n")
+	for _, n := range names {
+		fmt.Fprintf(&b, "  · exact ⟨%s_SetBigInt_same, %s_SetString_same, %s_SetInt64_same⟩\n", n, n, n)
+	}
+	b.WriteString("\nend GV.Gen.Imp.SetAll\n")
+	writeFile("Imp/SetAll.lean", b.String())
 }
